@@ -257,6 +257,9 @@ def handle_history(case):
     outs.append(_run_once(obs, det, pipe, first))
     for k in range(1, len(steps)):
         try:
+            if steps[k].get("objects") == "new":
+                # the same Observation is given ANOTHER detector and pipeline, configured like the edited ones would be
+                det, pipe, _ = build(steps[k])
             _edit(obs, det, pipe, steps[k - 1], steps[k], k)
         except Exception as ex:  # noqa: BLE001 -- the edit itself was refused (e.g. CustomMode.build): not a run
             outs.append(dict(raised=type(ex).__name__, msg="edit: " + str(ex)[:180], runs=[], result=[], ncalls=0,
